@@ -53,13 +53,6 @@ Section HP.
 Context {F : Type} (Op : fops F).
 Local Notation heapF := (heap (F:=F)).
 
-(* the references of an operand point into the heap *)
-Definition wf_ref (h : heapF) (r : href) : Prop :=
-  ref_fs h r < length (h_lst h) /\
-  (forall l, In l (lst h (ref_fs h r)) -> l < length (h_arr h)) /\
-  (forall l, ref_w h r = Some l -> l < length (h_arr h)) /\
-  (forall o, r = RObject o -> o < length (h_obj h)).
-
 Lemma deref_w_fs (h : heapF) r :
   operand_fs (deref h r) = read_fs h (lst h (ref_fs h r)) /\
   operand_w Op (deref h r) = weights_or_ones Op (option_map (read_vec h) (ref_w h r)) (read_fs h (lst h (ref_fs h r))).
@@ -195,13 +188,21 @@ Proof.
     + eexists. reflexivity.
 Qed.
 
+Lemma new_obj_cw h2 (wl : option nat) fl h' o : new_obj Op h2 wl fl = Ok (h', o) ->
+  (forall l, wl = Some l -> l < length (h_arr h2)) -> c_w (obj h' o) < length (h_arr h').
+Proof.
+  unfold new_obj. destruct (cp_validb _ _); [|discriminate]. intros E Hw.
+  destruct wl as [l|]; injection E as <- <-; unfold obj; simpl; rewrite nth_middle; simpl.
+  - now apply Hw.
+  - rewrite app_length. simpl. lia.
+Qed.
 Lemma read_obj_set_obj (h2 : heapF) o0 cell : o0 < length (h_obj h2) ->
   read_obj (set_obj h2 o0 cell) o0 = mk_cpobj (c_shape cell) (read_vec h2 (c_w cell)) (read_fs h2 (lst h2 (c_fs cell))).
 Proof. intros H. unfold read_obj, obj, set_obj, read_vec, read_fs, lst, arr. simpl. now rewrite nth_set_nth_same. Qed.
 
 (* copy=False: the result reads as the pure model's answer PROVIDED the array that absorbs a contracted vector in place is named
    by one remaining entry of the factor list only (and is not the weights array) *)
-Theorem cp_mode_dot_h_inplace_value h r x mode kd h' o :
+Theorem cp_mode_dot_h_inplace_value (h : heapF) r x mode kd h' o :
   wf_ref h r ->
   (forall l, ref_w h r = Some l -> ~ In l (lst h (ref_fs h r))) ->
   (is_contract x kd = true -> forall j, j < length (remove_nth mode (lst h (ref_fs h r))) -> j <> pred mode ->
@@ -245,7 +246,7 @@ Lemma obj_set_obj (h2 : heapF) o0 cell : o0 < length (h_obj h2) -> obj (set_obj 
 Proof. intros H. unfold obj, set_obj. simpl. now rewrite nth_set_nth_same. Qed.
 
 (* copy=False, whatever the aliasing: no array the caller holds is clobbered silently -- it keeps its value or is owned by the result *)
-Theorem cp_mode_dot_h_no_silent_clobber h r x mode kd h' o :
+Theorem cp_mode_dot_h_no_silent_clobber (h : heapF) r x mode kd h' o :
   wf_ref h r -> cp_mode_dot_h Op h r false x mode kd = Ok (h', o) -> no_silent_clobber h h' o.
 Proof.
   intros (Hfl & Hin & Hwl & Hob). rewrite cp_mode_dot_h_nocopy.
@@ -311,7 +312,7 @@ Proof.
 Qed.
 
 (* the state after the copies: fresh arrays holding the same values, a fresh list naming them, nothing old touched *)
-Lemma copies_spec h r : wf_ref h r ->
+Lemma copies_spec (h : heapF) r : wf_ref h r ->
   let h1a := fst (copy_list h (ref_fs h r)) in let fl1 := snd (copy_list h (ref_fs h r)) in
   let h1 := fst (copy_w h1a (ref_w h r)) in let wl1 := snd (copy_w h1a (ref_w h r)) in
   let n0 := length (h_arr h) in let N := length (lst h (ref_fs h r)) in
@@ -352,9 +353,10 @@ Qed.
 
 (* copy=True: nothing the caller holds is touched, the result is a fresh object owning fresh arrays only, and it reads as the
    pure model's answer -- whatever the aliasing in the caller's factor list *)
-Theorem cp_mode_dot_h_copy_fresh h r x mode kd h' o :
+Theorem cp_mode_dot_h_copy_fresh (h : heapF) r x mode kd h' o :
   wf_ref h r -> cp_mode_dot_h Op h r true x mode kd = Ok (h', o) ->
   extends h h' /\ length (h_obj h) <= o /\ (forall l, In l (owned h' o) -> length (h_arr h) <= l) /\
+  wf_ref h' (RObject o) /\
   exists w' fs', cp_mode_dot Op (operand_w Op (deref h r)) (operand_fs (deref h r)) x mode kd = Ok (w', fs') /\
      cpo_fs (read_obj h' o) = fs' /\ cpo_shape (read_obj h' o) = cp_shape fs' /\
      cpo_w (read_obj h' o) = match ref_w h r with Some _ => w' | None => ones Op (cp_rank fs') end.
@@ -397,7 +399,8 @@ Proof.
   { intros l Hl. rewrite HL in Hl. destruct (is_contract x kd).
     - apply Hge1. eapply In_remove_nth; eauto.
     - destruct (In_set_nth _ _ _ _ Hl) as [->|Hl']; [rewrite Ea, app_length; fold n0; lia | now apply Hge1]. }
-  split; [|split; [|split]].
+  pose proof (new_obj_cw h2 wl1 fl1 h' o E) as Hcw.
+  split; [|split; [|split; [|split]]].
   - (* extends *) unfold extends. split; [|split].
     + exists (a2 ++ a3). now rewrite Ra3, Ea2, app_assoc.
     + rewrite RL. unfold h2, stage2. destruct (is_contract x kd); simpl; rewrite EL, Efl;
@@ -409,6 +412,12 @@ Proof.
       * destruct (Hw1 l1 eq_refl) as [-> _]. lia.
       * rewrite Ea2, app_length. fold n0. lia.
     + rewrite Rcf in Hl. unfold lst in Hl. rewrite RL in Hl. fold (lst h2 fl1) in Hl. now apply Hlst2.
+  - (* the result is a well-formed reference of the new heap *)
+    unfold wf_ref. simpl ref_fs. simpl ref_w. rewrite Rcf. split; [|split; [|split]].
+    + rewrite RL, HLl. exact Hfl1.
+    + intros l Hl. unfold lst in Hl. rewrite RL in Hl. fold (lst h2 fl1) in Hl. specialize (Hb l Hl). rewrite Ra3, app_length. lia.
+    + intros l El. injection El as <-. apply Hcw. intros l El. destruct (Hw1 l El) as [_ Hl]. lia.
+    + intros o0 Eo. injection Eo as <-. rewrite RO, app_length, Ro. simpl. lia.
   - exists w', fs'. split; [reflexivity|]. rewrite Hrd in R1, R2, R3. repeat split; auto. rewrite R3.
     destruct wl1 as [l1|] eqn:Ew1; destruct (ref_w h r) as [l|] eqn:Ewr; simpl in Ewv; try discriminate; auto.
     + destruct (Hw1 l1 eq_refl) as [El1 Hl1].
@@ -472,7 +481,7 @@ Proof.
 Qed.
 
 (* repaired tree, copy=False: the result reads as the pure model's answer WHATEVER the aliasing, and no array is ever overwritten *)
-Theorem cp_mode_dot_h_fresh_value h r x mode kd h' o :
+Theorem cp_mode_dot_h_fresh_value (h : heapF) r x mode kd h' o :
   wf_ref h r -> cp_mode_dot_h_fresh Op h r false x mode kd = Ok (h', o) ->
   (exists a, h_arr h' = h_arr h ++ a) /\
   exists w' fs', cp_mode_dot Op (operand_w Op (deref h r)) (operand_fs (deref h r)) x mode kd = Ok (w', fs') /\
@@ -526,6 +535,61 @@ Proof.
     intros l El. split; [specialize (Hwl l El); lia|].
     destruct Hpre as [a Ea]. unfold read_vec, arr. rewrite Ea, app_nth1 by (now apply Hwl).
     subst w'. rewrite Ew, El. reflexivity.
+Qed.
+
+(* ---------------------------------------------------------------- histories of copy=True calls *)
+Lemma extends_refl (h : heapF) : extends h h.
+Proof. unfold extends. repeat split; exists []; now rewrite app_nil_r. Qed.
+Lemma extends_trans (h1 h2 h3 : heapF) : extends h1 h2 -> extends h2 h3 -> extends h1 h3.
+Proof.
+  intros ([a1 A1] & [l1 L1] & [o1 O1]) ([a2 A2] & [l2 L2] & [o2 O2]). unfold extends.
+  rewrite A2, A1, L2, L1, O2, O1, <- !app_assoc. repeat split; eexists; reflexivity.
+Qed.
+(* a well-formed reference survives every extension of the heap, and denotes the same tensor *)
+Lemma wf_ref_extends (h h' : heapF) r : extends h h' -> wf_ref h r -> wf_ref h' r /\ deref h' r = deref h r.
+Proof.
+  intros ([a A] & [l L] & [o O]) (Hfl & Hin & Hwl & Hob).
+  assert (Earr : forall k, k < length (h_arr h) -> arr h' k = arr h k) by (intros k Hk; unfold arr; rewrite A; now apply app_nth1).
+  assert (Elst : forall k, k < length (h_lst h) -> lst h' k = lst h k) by (intros k Hk; unfold lst; rewrite L; now apply app_nth1).
+  assert (Eobj : forall k, k < length (h_obj h) -> obj h' k = obj h k) by (intros k Hk; unfold obj; rewrite O; now apply app_nth1).
+  assert (Erf : ref_fs h' r = ref_fs h r) by (destruct r as [w fs|o0]; simpl; [reflexivity|now rewrite Eobj by (now apply Hob)]).
+  assert (Erw : ref_w h' r = ref_w h r) by (destruct r as [w fs|o0]; simpl; [reflexivity|now rewrite Eobj by (now apply Hob)]).
+  assert (Efs : read_fs h' (lst h (ref_fs h r)) = read_fs h (lst h (ref_fs h r))).
+  { unfold read_fs. apply map_ext_in. intros k Hk. apply Earr. now apply Hin. }
+  split.
+  - unfold wf_ref. rewrite Erf, Erw, Elst by assumption. rewrite A, L, O, !app_length. repeat split.
+    + lia.
+    + intros k Hk. specialize (Hin k Hk). lia.
+    + intros k Hk. specialize (Hwl k Hk). lia.
+    + intros o0 Eo. specialize (Hob o0 Eo). lia.
+  - destruct r as [w fs|o0]; simpl in *.
+    + rewrite Elst by assumption. rewrite Efs. f_equal. destruct w as [k|]; simpl; auto. unfold read_vec. now rewrite Earr by (now apply Hwl).
+    + specialize (Hob o0 eq_refl). rewrite Eobj by assumption. rewrite Elst by assumption. rewrite Efs.
+      unfold read_vec. now rewrite Earr by (now apply Hwl).
+Qed.
+
+(* whatever the history: the initial heap is a prefix of the final one, and every tensor ever seen still denotes what it
+   denoted when it was first seen (the caller's operands: what they denoted initially) *)
+Theorem run_ops_frame : forall ops h refs h' refs',
+  Forall (wf_ref h) refs -> run_ops Op h refs ops = Ok (h', refs') ->
+  extends h h' /\ Forall (wf_ref h') refs' /\ length refs' = length refs + length ops /\
+  forall k r, nth_error refs k = Some r -> nth_error refs' k = Some r /\ deref h' r = deref h r.
+Proof.
+  induction ops as [|[[[k x] mode] kd] rest IH]; intros h refs h' refs' Hwf E; simpl in E.
+  - injection E as <- <-. split; [apply extends_refl|]. split; [assumption|]. split; [simpl; lia|]. auto.
+  - destruct (nth_error refs k) as [r|] eqn:Ek; [|discriminate].
+    destruct (cp_mode_dot_h Op h r true x mode kd) as [[h1 o]|] eqn:E1; [|discriminate].
+    assert (Hr : wf_ref h r) by (rewrite Forall_forall in Hwf; apply Hwf; eapply nth_error_In; eauto).
+    destruct (cp_mode_dot_h_copy_fresh h r x mode kd h1 o Hr E1) as (Hext & _ & _ & Hwo & _).
+    assert (Hwf1 : Forall (wf_ref h1) (refs ++ [RObject o])).
+    { apply Forall_app. split; [|constructor; [exact Hwo|constructor]].
+      rewrite Forall_forall in *. intros r0 Hr0. now apply (wf_ref_extends h h1 r0 Hext), Hwf. }
+    destruct (IH h1 (refs ++ [RObject o]) h' refs' Hwf1 E) as (Hext' & Hwf' & Hlen & Hk).
+    split; [eapply extends_trans; eauto|]. split; [assumption|]. split; [rewrite Hlen, app_length; simpl; lia|].
+    intros k0 r0 Ek0. destruct (Hk k0 r0) as [H1 H2].
+    { rewrite nth_error_app1; [assumption|]. apply nth_error_Some. congruence. }
+    split; [assumption|]. rewrite H2. apply (wf_ref_extends h h1 r0 Hext).
+    rewrite Forall_forall in Hwf. apply Hwf. eapply nth_error_In; eauto.
 Qed.
 End HP.
 
